@@ -4,4 +4,4 @@ Require Import ExtrOcamlBasic.
 Extraction "mapset_model.ml" keep_types bytes_ltb bytes_eqb st0 step run getm gets rget maps sets txns
   mget mlen mall mprefix mlower take mequalKeys mslowEqual mencode
   tget tlen tall tprefix tlower tdelete
-  shas sget slen sall sequal stbf sencode hm_of_list.
+  shas sget slen sall sequal stbf sencode hm_of_list mset mdecode_json mdecode_yaml.
